@@ -732,3 +732,44 @@ Proof.
   - eexists. eexists. eexists. split; [vm_compute; reflexivity|]. split; [vm_compute; reflexivity|].
     split; [vm_compute; reflexivity|]. repeat split; vm_compute; reflexivity.
 Qed.
+
+(* ---------- the quantifier's blind corner: paddings of exactly ONE sample (two open known findings) ----------
+   C10 speaks of delays that are "whole numbers of samples"; `shift_blueprint` needs kd, kp in {0} U [2, oo).  For kd = 1
+   or kp = 1 the statement is false of the faithful model - and of the code: the padding is built from blueprint
+   segments and a segment needs at least two samples. *)
+Definition one_sample_bp :=
+  mkBp [S_ "ramp"] [Framp] [[VNum 0; VNum 1]] [VNum (4 # 100)] [(0,0)] [(0,0)] [] [] (VNum 100).
+
+Lemma one_sample_bp_ok :
+  bp_wf one_sample_bp /\ length (names one_sample_bp) = length (funs one_sample_bp) /\
+  exists f, forge_bp_with one_sample_bp 100 (durs one_sample_bp) = Ok f.
+Proof.
+  split; [|split; [reflexivity|]].
+  - unfold bp_wf. split; [reflexivity|]. split; [reflexivity|].
+    repeat constructor; cbn [fn_eqb]; intro H; discriminate H.
+  - eexists. vm_compute. reflexivity.
+Qed.
+
+(* delay of exactly one sample (d*SR = 1): the prepended waituntil(d) is one sample long *)
+Lemma one_sample_pre_padding_refuted :
+  exists b SR d M f, 0 < SR /\ bp_wf b /\ length (names b) = length (funs b) /\ forge_bp_with b SR (durs b) = Ok f /\
+    0 <= d /\ d <= M /\ d * SR == inject_Z 1 /\ (M - d) * SR == inject_Z 2 /\
+    exists b', delay_bp b d M = Ok b' /\ forge_bp_with b' SR (durs b') = Err ESegDur.
+Proof.
+  destruct one_sample_bp_ok as (W & L & f & Hf).
+  exists one_sample_bp, 100, (1 # 100), (3 # 100), f.
+  repeat (split; [first [exact W | exact L | exact Hf | reflexivity | discriminate]|]).
+  eexists. split; vm_compute; reflexivity.
+Qed.
+
+(* delay exactly one sample below the maximum ((M-d)*SR = 1): the appended ramp(0,0) is one sample long *)
+Lemma one_sample_post_padding_refuted :
+  exists b SR d M f, 0 < SR /\ bp_wf b /\ length (names b) = length (funs b) /\ forge_bp_with b SR (durs b) = Ok f /\
+    0 <= d /\ d <= M /\ d * SR == inject_Z 2 /\ (M - d) * SR == inject_Z 1 /\
+    exists b', delay_bp b d M = Ok b' /\ forge_bp_with b' SR (durs b') = Err ESegDur.
+Proof.
+  destruct one_sample_bp_ok as (W & L & f & Hf).
+  exists one_sample_bp, 100, (2 # 100), (3 # 100), f.
+  repeat (split; [first [exact W | exact L | exact Hf | reflexivity | discriminate]|]).
+  eexists. split; vm_compute; reflexivity.
+Qed.
